@@ -1846,8 +1846,10 @@ func (s *ExtCommunitySet) Remove(arg DefinedSet) error {
 	newSubtypes := make([]bgp.ExtendedCommunityAttrSubType, 0, len(s.subtypeList))
 	for i, x := range s.list {
 		found := false
-		for _, y := range other.list {
-			if x.String() == y.String() {
+		for j, y := range other.list {
+			// a member is a sub-type plus a pattern: "rt:65000:1" must not
+			// remove "soo:65000:1"
+			if s.subtypeList[i] == other.subtypeList[j] && x.String() == y.String() {
 				found = true
 				break
 			}
